@@ -197,6 +197,7 @@ def main(argv):
         plan.append((big if pat != 'updates' else big // 10, pat))
     terms, meta = [], []
     seen = set()
+    growth_seen = False
     for n, pat in plan:
         kinds = gen_kinds(rng, n, pat)
         modes = ['pushb', 'pull', 'pushall', 'push%d' % rng.choice([1, 7, 37, 200])]
@@ -206,6 +207,10 @@ def main(argv):
         for mode in modes:
             chunk = int(mode[4:]) if mode.startswith('push') and mode[4:].isdigit() else 0
             m = 'chunk' if chunk else mode
+            if growth_seen and n > 200:
+                # a tree that is not released makes the parser itself quadratic: one replay per kind of violation is enough
+                ck.dist('skipped-after-a-growth-violation')
+                continue
             try:
                 res = run_impl(kinds, m, chunk)
             except Exception as e:
@@ -224,6 +229,7 @@ def main(argv):
             if n <= 12:
                 ck.sample({'kinds(True=ontology)': kinds, 'mode': mode, 'observed': res})
             for sig, detail in oracle(kinds, m, res, pat):
+                growth_seen = True
                 ck.oracle_failures.append({'signature': sig, 'input': {'kinds': kinds if n <= 200 else kinds[:200], 'n': n, 'pattern': pat,
                                                                       'mode': m, 'chunk': chunk}, 'observed': detail,
                                            'expected': 'retained - undelivered <= small constant'})
